@@ -968,7 +968,57 @@ def oracle_c08(ctx, which='c08'):
                 res.violation('foreign exception leaves frame.unmarshal', {'fn': 'c09_case', 'args': pyrepr((data,))}, bad[0], bad[1])
     if ratios:
         res.notes.append('max calls/len = %.2f over %d inputs (bound 4*len+64)' % (max(ratios), len(ratios)))
+    if which == 'c08':
+        res.case('retained memory over a stream', tag='retained')
+        k, bad = catching(c08_retained_case, ctx.gen.r.randrange(1 << 30), 900 if ctx.thorough else 300)
+        if k == 'ok' and bad:
+            res.violation('memory kept by the decoder grows with everything it has been sent', {'fn': 'c08_retained_case', 'args': pyrepr((0, 300))}, bad[0], bad[1])
     return res
+
+
+@replayer
+def c08_retained_case(seed, n):
+    """three batches of `n` DISTINCT frames (foreign forms included: further flag words, any class id, unused bits) are
+    decoded and the results dropped; what the process still holds afterwards must not keep growing with the bytes decoded
+    (memory proportional to the input - not to everything ever received)"""
+    import gc
+    import random
+    g = G.Gen(seed)
+    r = random.Random(seed)
+
+    def batch():
+        out = []
+        for i in range(n):
+            if i % 2:
+                words = struct.pack('>H', r.getrandbits(15) << 1 | 1 & 0x0001 | 0x0001) + struct.pack('>H', r.getrandbits(15) << 1 | 1) + struct.pack('>H', r.getrandbits(15) << 1)
+                payload = b'\x00\x3c\x00\x00' + struct.pack('>Q', r.getrandbits(64)) + struct.pack('>H', 0x0001) + words
+                out.append(refenc.envelope(2, r.randrange(65536), payload))
+            else:
+                data, _ = grammar.header_frame(g) if i % 4 else grammar.method_frame(g, r.choice(list(refenc.METHODS)))
+                out.append(data)
+        return out
+    sizes = []
+    held = []
+    tracemalloc.start()
+    try:
+        for b_ in range(4):
+            frames_ = batch()
+            total = sum(len(x) for x in frames_)
+            for d in frames_:
+                try:
+                    frame.unmarshal(d)
+                except Exception:  # noqa
+                    pass
+            del frames_
+            gc.collect()
+            held.append(tracemalloc.get_traced_memory()[0])
+            sizes.append(total)
+    finally:
+        tracemalloc.stop()
+    growth = [held[i + 1] - held[i] for i in range(1, 3)]
+    if all(gr > 0.25 * sizes[i + 1] and gr > 20000 for i, gr in enumerate(growth, 1)):
+        return ('retained memory levels off (a bounded cache is fine)', 'after batches of about %d bytes: %r bytes still held' % (sizes[1], held))
+    return None
 
 
 def oracle_c09(ctx):
@@ -1950,6 +2000,24 @@ def c13_case(name, attr_vals, mode):
             broken = broken or constraint_broken(c, v)
     else:
         obj = cls()
+        if mode in ('decoded', 'copied', 'pickled') and name != 'Basic.Properties':
+            # the object comes from the decoder (or is a copy of one that does): it is checked on send like any other
+            k0, r0 = catching(lambda: frame.unmarshal(frame.marshal(cls(), 1))[2])
+            if k0 != 'ok':
+                return None
+            obj = r0
+            if mode == 'copied':
+                obj = copy.copy(obj)
+            elif mode == 'pickled':
+                import pickle
+                kp, rp = catching(lambda: pickle.loads(pickle.dumps(obj)))
+                if kp != 'ok':
+                    return None
+                obj = rp
+        elif mode == 'revalidated':
+            catching(obj.validate)          # validation ran before (on valid values); it runs again on send
+            if name != 'Basic.Properties':
+                catching(frame.marshal, obj, 1)
         for a, v in attr_vals.items():
             setattr(obj, a, v)
         for c in cons:
@@ -2002,6 +2070,38 @@ def oracle_c13(ctx):
                     if k != 'ok' or bad:
                         res.violation('%s.%s=%r (%s)' % (name, c[1], v, mode), {'fn': 'c13_case', 'args': pyrepr((name, {c[1]: v}, mode))},
                                       bad[0] if k == 'ok' else 'oracle runs', bad[1] if k == 'ok' else repr(bad))
+    # however the object came to be: decoded from the wire, a copy or an unpickled copy of a decoded one, or one
+    # whose validation already ran once
+    for name in names:
+        cons = spec_tables.PROPS_CONSTRAINTS if name == 'Basic.Properties' else spec_tables.CONSTRAINTS[name]
+        for c in cons:
+            vals_ = typed_values_for(c, g)
+            for v in (vals_ if ctx.thorough else vals_[:3] + g.r.sample(vals_, min(5, len(vals_)))):
+                for mode in ('decoded', 'copied', 'pickled', 'revalidated'):
+                    res.case('%s %s %r %s' % (name, c[1], v, mode), tag='origin ' + mode)
+                    k, bad = catching(c13_case, name, {c[1]: v}, mode)
+                    if k != 'ok' or bad:
+                        res.violation('%s.%s=%r (%s object)' % (name, c[1], v, mode), {'fn': 'c13_case', 'args': pyrepr((name, {c[1]: v}, mode))},
+                                      bad[0] if k == 'ok' else 'oracle runs', bad[1] if k == 'ok' else repr(bad))
+    # names that mean something to a broker, together with every combination of the class's flag arguments
+    for name, cons in spec_tables.CONSTRAINTS.items():
+        cid_, mid_, replies_, args_ = c14_spec_of(name)
+        bits = [spec_tables.pyname(a[0]) for a in args_ if a[1] == 'bit' and not any(c[1] == a[0] for c in cons)]
+        for c in cons:
+            if c[0] != 'chars':
+                continue
+            lim = min([x[2] for x in cons if x[0] == 'maxlen' and x[1] == c[1]] or [255])
+            pool = [n for n in G.WELL_KNOWN_NAMES + [m for m in G.MINED_STRINGS if m and all(ch in spec_tables.NAME_CHARS for ch in m)] if len(n) <= lim]
+            for nm in (pool if ctx.thorough else g.r.sample(pool, min(12, len(pool))) + ['amq.gen-JzTY20BRgKO', 'amq.direct', 'amq.rabbitmq.reply-to']):
+                combos = list(itertools.product([False, True], repeat=len(bits)))
+                for combo in (combos if len(combos) <= 8 or ctx.thorough else g.r.sample(combos, 8)):
+                    av = dict({spec_tables.pyname(c[1]): nm}, **dict(zip(bits, combo)))
+                    for mode in ('ctor', 'setattr'):
+                        res.case('%s %r %s' % (name, av, mode), tag='meaningful names')
+                        k, bad = catching(c13_case, name, av, mode)
+                        if k != 'ok' or bad:
+                            res.violation('%s %r (%s)' % (name, av, mode), {'fn': 'c13_case', 'args': pyrepr((name, av, mode))},
+                                          bad[0] if k == 'ok' else 'oracle runs', bad[1] if k == 'ok' else repr(bad))
     # classes without constraints accept everything typed; and decoding never validates
     for key, cls in commands.INDEX_MAPPING.items():
         if cls.name in spec_tables.CONSTRAINTS:
@@ -2675,6 +2775,7 @@ def oracle_c16(ctx):
     finally:
         encode.DEPRECATED_RABBITMQ_SUPPORT = old
     c16_fresh_processes(ctx, res, g.r.randrange(1 << 30), 1200 if ctx.thorough else 300)
+    c16_first_use(ctx, res)
     # (2) objects returned by separate calls never share mutable state
     made = []
     for key, cls in commands.INDEX_MAPPING.items():
@@ -2781,6 +2882,7 @@ class Ctx: pass
 spec = json.load(sys.stdin)
 import spec_tables
 ctx = Ctx(); ctx.thorough = False; ctx.generated = dict(json.load(open(spec['generated'])), catalogue=spec_tables.catalogue()); ctx.literals = []
+gen.MINED_STRINGS[:] = spec.get('mined', [])
 ctx.gen = gen.Gen(spec['seed'])
 ops = lanes.api_ops(ctx, spec['n'])
 out = {}
@@ -2793,6 +2895,99 @@ for i in spec['order']:
     out[i] = o if isinstance(o, str) else 'ok'
 json.dump({'lines': [o[0][:200] for o in ops], 'out': out}, sys.stdout)
 """
+
+
+C16_FIRST_CHILD = r"""
+import sys, json, os
+sys.path.insert(0, os.environ['VERIF_TOOLS'])
+import real, lanes
+from ocommon import pyeval
+from real import frame, commands
+spec = json.load(sys.stdin)
+out = []
+for key, vals_s, bad_i, bad_s, mode in spec:
+    cls = commands.INDEX_MAPPING[key]
+    vals = pyeval(vals_s)
+    good = real.make_method(cls, vals)
+    first = 'none'
+    if mode == 'marshal-fails-first':
+        bad = list(vals); bad[bad_i] = pyeval(bad_s)
+        try:
+            frame.marshal(real.make_method(cls, bad), 1); first = 'accepted'
+        except Exception as e:
+            first = 'err ' + type(e).__name__
+    elif mode == 'unmarshal-fails-first':
+        b = frame.marshal(good, 1)
+        cut = b[:7][:3] + (len(b) - 8 - bad_i - 1).to_bytes(4, 'big') + b[7:len(b) - 1 - bad_i - 1] + b'\xce'
+        try:
+            frame.unmarshal(cut); first = 'accepted'
+        except Exception as e:
+            first = 'err ' + type(e).__name__
+    try:
+        b = frame.marshal(good, 1); m = b.hex()
+    except Exception as e:
+        b = None; m = 'err ' + type(e).__name__
+    try:
+        u = lanes.frame_sx(frame.unmarshal(b)[2]) if b is not None else 'skip'
+    except Exception as e:
+        u = 'err ' + type(e).__name__
+    out.append([first, m, u])
+json.dump(out, sys.stdout)
+"""
+
+
+def c16_first_use(ctx, res):
+    """the FIRST use of a class in a process fails (a refused value / a payload cut short inside a complete envelope);
+    the next, valid, use must give what it gives in any other process"""
+    g = ctx.gen
+    metas = [m for m in ctx.generated['catalogue']['methods'] if m['args']]
+    if not ctx.thorough:
+        metas = g.r.sample(metas, 24)
+    env = dict(os.environ, VERIF_TOOLS=os.path.dirname(os.path.abspath(__file__)), PAMQP_REPO=real.REPO, PYTHONDONTWRITEBYTECODE='1')
+    for mode in ('marshal-fails-first', 'unmarshal-fails-first', 'nothing-first'):
+        spec = []
+        for meta in metas:
+            cls = commands.INDEX_MAPPING[meta['key']]
+            vals = lanes.method_vals_ok(ctx, cls, meta)
+            i = g.r.randrange(len(vals))
+            spec.append([meta['key'], pyrepr(vals), i, pyrepr(g.r.choice([object(), b'raw-bytes', 2 ** 70, 1.5j, [object()]])), mode])
+        # expected: this (warm) process
+        expect = []
+        for key, vals_s, bad_i, bad_s, _ in spec:
+            cls = commands.INDEX_MAPPING[key]
+            k, b = catching(frame.marshal, real.make_method(cls, pyeval(vals_s)), 1)
+            if k != 'ok':
+                expect.append(None)
+                continue
+            k2, r = catching(frame.unmarshal, b)
+            expect.append([b.hex(), lanes.frame_sx(r[2]) if k2 == 'ok' else 'err'])
+        p = subprocess.run([sys.executable, '-B', '-c', C16_FIRST_CHILD], input=json.dumps(spec).encode(), stdout=subprocess.PIPE, stderr=subprocess.PIPE, env=env, timeout=120)
+        if p.returncode != 0:
+            res.notes.append('first-use child failed: ' + p.stderr.decode('utf-8', 'replace')[-300:])
+            continue
+        got = json.loads(p.stdout)
+        for sp, e, o in zip(spec, expect, got):
+            res.case('first use %s %d' % (mode, sp[0]), tag='first use ' + mode)
+            if e is None:
+                continue
+            if o[1] != e[0] or o[2] != e[1]:
+                res.violation('%s: after a first use of the class that %s, a valid frame is encoded / decoded differently'
+                              % (commands.INDEX_MAPPING[sp[0]].name, mode), {'fn': 'c16_first_use_case', 'args': pyrepr((sp,))},
+                              '%s / %s' % (e[0][:120], e[1][:120]), '%s / %s (first: %s)' % (o[1][:120], o[2][:120], o[0]))
+                break
+
+
+@replayer
+def c16_first_use_case(sp):
+    env = dict(os.environ, VERIF_TOOLS=os.path.dirname(os.path.abspath(__file__)), PAMQP_REPO=real.REPO, PYTHONDONTWRITEBYTECODE='1')
+    outs = {}
+    for mode in (sp[4], 'nothing-first'):
+        p = subprocess.run([sys.executable, '-B', '-c', C16_FIRST_CHILD], input=json.dumps([sp[:4] + [mode]]).encode(), stdout=subprocess.PIPE, stderr=subprocess.PIPE, env=env, timeout=60)
+        if p.returncode != 0:
+            return ('child runs', p.stderr.decode('utf-8', 'replace')[-300:])
+        outs[mode] = json.loads(p.stdout)[0]
+    a, b = outs[sp[4]], outs['nothing-first']
+    return None if a[1:] == b[1:] else ('%s / %s' % (b[1][:120], b[2][:120]), '%s / %s (first: %s)' % (a[1][:120], a[2][:120], a[0]))
 
 
 def c16_fresh_processes(ctx, res, seed, n, procs=3):
@@ -2824,7 +3019,7 @@ def c16_fresh_processes(ctx, res, seed, n, procs=3):
         rnd.shuffle(order)
         env = dict(os.environ, VERIF_TOOLS=os.path.dirname(os.path.abspath(__file__)), PAMQP_REPO=real.REPO, PYTHONDONTWRITEBYTECODE='1')
         p = subprocess.Popen([sys.executable, '-B', '-c', C16_CHILD], stdin=subprocess.PIPE, stdout=subprocess.PIPE, stderr=subprocess.PIPE, env=env)
-        p.stdin.write(json.dumps({'seed': seed, 'n': n, 'order': order, 'flags': flags, 'generated': gen_path}).encode())
+        p.stdin.write(json.dumps({'seed': seed, 'n': n, 'order': order, 'flags': flags, 'generated': gen_path, 'mined': list(G.MINED_STRINGS)}).encode())
         p.stdin.close()
         children.append(p)
     for k, p in enumerate(children):
